@@ -168,7 +168,10 @@ Fixpoint run_ops (fuel : nat) (st : rst) (ts : list str) (acc : list str) : list
           let bad := rev_append (s_bad :: acc) [] in
           if chr 79 op then (* O : open *)
             (* every Open gets a fresh metrics collector *)
-            let '(res, e') := open_wal (r_cfg st) (with_m (r_env st) zero_metrics) in
+            let e0 := r_env st in
+            let '(res, e') := open_wal (r_cfg st)
+                                {| e_acts := e_acts e0; e_disk := adopt_disk (e_disk e0);
+                                   e_fault := e_fault e0; e_m := zero_metrics |} in
             match res with
             | OOk w => run_ops fuel' (set_we st w e') r (s_ok :: acc)
             | OErr _ => run_ops fuel' {| r_cfg := r_cfg st; r_wal := None; r_env := e'; r_mark := r_mark st; r_base := r_base st; r_base_n := r_base_n st |}
